@@ -327,7 +327,8 @@ class Ctx:
       e.update(env or {})
       # a shard normally takes seconds; TLC was once seen spinning forever on a shard that passes in
       # 5 s when re-run, so every shard gets a bounded time and is retried before giving up
-      per_try = min(timeout, max(240, len(buckets[j]) // 5))
+      # (the thorough tier re-evaluates the algorithm specs on every event and may share the machine with other runs)
+      per_try = min(timeout, max(240, len(buckets[j]) // 5)) if self.quick else max(timeout, 900, len(buckets[j]))
       for attempt in range(3):
         if os.path.exists(bf):
           os.remove(bf)
